@@ -1,5 +1,5 @@
 #!/usr/bin/env python3
-"""Print the markdown table of DESIGN.md 8.6 (what the last run of each tier covered) from evidence/tiers/*.json."""
+"""Print the markdown table of DESIGN.md 8.7 (what the last run of each tier covered) from evidence/tiers/*.json."""
 import glob, json, os
 
 root = os.path.dirname(os.path.dirname(os.path.abspath(__file__)))
